@@ -4,4 +4,4 @@ import sdp_common
 
 
 def run(ctx):
-    return sdp_common.run_sdp(ctx, "C08", ['default'], 150, 4000, ['LegalAnswerDir','NoSendWithoutRecv','NoRecvWithoutSend'])
+    return sdp_common.run_sdp(ctx, "C08", ['default', 'planb', 'fallback'], 150, 4000, ['LegalAnswerDir','NoSendWithoutRecv','NoRecvWithoutSend'])
